@@ -32,6 +32,9 @@ import (
 
 const progSrc = `BEGIN { RS = RSV() } { printf "%d %s %s\n", NR, H($0), H(RT) }`
 
+// RS assigned by the action of record K while the (regex) splitter of the file is active
+const progSrc2 = `BEGIN { RS = RSV() } { printf "%d %s %s\n", NR, H($0), H(RT) } NR == K() { RS = RSV2() }`
+
 // ---------------------------------------------------------------- chunk reader
 
 type chunkReader struct {
@@ -67,12 +70,15 @@ func (c *chunkReader) Read(p []byte) (int, error) {
 
 // ---------------------------------------------------------------- running the implementation
 
-var curRS string
+var curRS, curRS2 string
+var curK int
 var funcs = map[string]any{
-	"H":   func(s string) string { return hx.HexS(s) },
-	"RSV": func() string { return curRS },
+	"H":    func(s string) string { return hx.HexS(s) },
+	"RSV":  func() string { return curRS },
+	"RSV2": func() string { return curRS2 },
+	"K":    func() int { return curK },
 }
-var prog *parser.Program
+var prog, prog2 *parser.Program
 
 type rec struct{ s, rt string }
 
@@ -96,6 +102,10 @@ func (r result) canon() string {
 }
 
 func runImpl(rs string, data []byte, cuts []int, lastEOF bool) (res result) {
+	return runProg(prog, rs, "", 0, data, cuts, lastEOF)
+}
+
+func runProg(pr *parser.Program, rs, rs2 string, k int, data []byte, cuts []int, lastEOF bool) (res result) {
 	cr := &chunkReader{data: data, cuts: append([]int(nil), cuts...), lastEOF: lastEOF}
 	var out bytes.Buffer
 	var err error
@@ -105,8 +115,8 @@ func runImpl(rs string, data []byte, cuts []int, lastEOF bool) (res result) {
 				res.stop = "panic"
 			}
 		}()
-		curRS = rs
-		_, err = interp.ExecProgram(prog, &interp.Config{Stdin: cr, Output: &out, Error: io.Discard, Funcs: funcs, Environ: []string{}})
+		curRS, curRS2, curK = rs, rs2, k
+		_, err = interp.ExecProgram(pr, &interp.Config{Stdin: cr, Output: &out, Error: io.Discard, Funcs: funcs, Environ: []string{}})
 	}()
 	res.reads = cr.log
 	if res.stop == "panic" {
@@ -607,6 +617,19 @@ func replay(o hx.Opts) {
 	}
 	ref := runImpl(rs, data, oneCut(len(data)), false)
 	got := runImpl(rs, data, cuts, le)
+	if h, ok := d["rs2_hex"].(string); ok { // RS assigned mid-file
+		rs2, k := string(hx.UnHex(h)), int(d["k"].(float64))
+		ref = runProg(prog2, rs, rs2, k, data, oneCut(len(data)), false)
+		got = runProg(prog2, rs, rs2, k, data, cuts, le)
+		fmt.Printf("replay class=%q RS=%q then RS=%q after record %d input=%q reads=%v\nall-at-once: %s\nchunked:     %s\n",
+			doc.Failure.Class, rs, rs2, k, string(data), cuts, ref.canon(), got.canon())
+		if got.canon() != ref.canon() {
+			fmt.Println("STILL FAILS: chunked delivery differs from all-at-once delivery")
+			os.Exit(1)
+		}
+		fmt.Println("no longer fails")
+		return
+	}
 	fmt.Printf("replay class=%q oracle=%q\nRS=%q input=%q reads=%v last_read_with_eof=%v\nall-at-once: %s\nchunked:     %s\n",
 		doc.Failure.Class, doc.Failure.Oracle, rs, clip(string(data)), cuts, le, clip(ref.canon()), clip(got.canon()))
 	bad := false
@@ -631,6 +654,11 @@ func main() {
 	o := hx.ParseFlags()
 	var err error
 	prog, err = parser.ParseProgram([]byte(progSrc), &parser.ParserConfig{Funcs: funcs})
+	if err != nil {
+		fmt.Println("cannot parse the harness program:", err)
+		os.Exit(2)
+	}
+	prog2, err = parser.ParseProgram([]byte(progSrc2), &parser.ParserConfig{Funcs: funcs})
 	if err != nil {
 		fmt.Println("cannot parse the harness program:", err)
 		os.Exit(2)
@@ -756,7 +784,94 @@ func main() {
 		}
 	}
 	lap("search")
+	schedCases(o, r, rep)
+	lap("sched")
 	rep.Write(o.Out)
+}
+
+// RS assigned mid-file: pairs of literal separators (every regex in force satisfies match_final,
+// so no delivery dependence is expected); the first RS is always handled by regexSplitter.
+func schedCases(o hx.Opts, r *hx.Rand, rep *hx.Report) {
+	type pair struct {
+		rs1 string
+		re1 *hx.Re
+		rs2 string
+		re2 *hx.Re
+	}
+	ab := cat(chr('a'), chr('b'))
+	pairs := []pair{
+		{"ab", ab, ",", chr(',')}, {"é", chr('é'), "ab", ab}, {"ab", ab, "\n", chr('\n')},
+		{"ab", ab, "", &hx.Re{Kind: "eps"}}, {"ab", ab, "é", chr('é')}, {",b", cat(chr(','), chr('b')), "a", chr('a')},
+	}
+	alpha := []string{"a", "b", ",", "\n", "é"}
+	exh, nrnd, rlen := 3, 4, 8
+	if o.Tier == "thorough" {
+		exh, nrnd, rlen = 4, 20, 11
+	}
+	type sk struct {
+		p    pair
+		k    int
+		data string
+		cuts []int
+	}
+	var cs []sk
+	for _, p := range pairs {
+		for _, k := range []int{1, 2} {
+			var inputs []string
+			for n := 1; n <= exh; n++ {
+				inputs = append(inputs, allStrings(alpha, n)...)
+			}
+			for j := 0; j < nrnd; j++ {
+				d := randUnits(r, alpha, rlen)
+				inputs = append(inputs, d[:rlen])
+			}
+			for _, d := range inputs {
+				for _, c := range compositions(len(d)) {
+					cs = append(cs, sk{p, k, d, c})
+				}
+			}
+		}
+	}
+	var lines []string
+	var results []result
+	for _, c := range cs {
+		got := runProg(prog2, c.p.rs1, c.p.rs2, c.k, []byte(c.data), c.cuts, false)
+		results = append(results, got)
+		kk := kase{kind: &rsKind{rs: c.p.rs1, re: c.p.re1}, data: []byte(c.data), cuts: c.cuts}
+		ml := strings.Fields(modelLine(kk, got))
+		lines = append(lines, fmt.Sprintf("scan2 0 %s %s %d %s %s %s", ml[2], ml[3], c.k, hx.HexS(c.p.rs2), c.p.re2.Wire(), ml[4]))
+	}
+	model, err := hx.ModelEval(o.ModelRun, lines)
+	if err != nil {
+		rep.HarnessError("%v", err)
+		return
+	}
+	refs := map[string]result{}
+	for i, c := range cs {
+		rep.CorrEvals++
+		rep.Count("rs:changed-mid-file")
+		rep.Distinct(lines[i])
+		got := results[i]
+		if strings.HasPrefix(model[i], "driver-error") {
+			rep.HarnessError("modelrun: %s on %s", model[i], lines[i])
+		} else if model[i] != got.canon() {
+			rep.Mismatch(hx.Mismatch{Class: "rs-changed-mid-file", Input: lines[i], Impl: got.canon(), Model: model[i]})
+		}
+		key := fmt.Sprintf("%s\x00%s\x00%d\x00%s", c.p.rs1, c.p.rs2, c.k, c.data)
+		ref, ok := refs[key]
+		if !ok {
+			ref = runProg(prog2, c.p.rs1, c.p.rs2, c.k, []byte(c.data), oneCut(len(c.data)), false)
+			refs[key] = ref
+		}
+		rep.SearchEvals++
+		if got.canon() != ref.canon() {
+			kk := kase{kind: &rsKind{rs: c.p.rs1}, data: []byte(c.data), cuts: c.cuts}
+			d := detail(kk, got, ref.canon())
+			d["program"], d["rs2_hex"], d["k"] = progSrc2, hx.HexS(c.p.rs2), c.k
+			rep.Fail(hx.Failure{Class: "RS assigned mid-file (literal separators): records differ between deliveries",
+				Oracle: "chunked delivery = all-at-once delivery", Detail: d})
+		}
+	}
 }
 
 func checkRef(rep *hx.Report, k kase, ref result) {
